@@ -126,6 +126,9 @@ NODES = {
                                                     [_n("participant", {"jid": J, "type": "admin"}), _n("participant", {"jid": J2})]),
                                                  _n("group", {"s_t": "1500000005", "creation": "1500000000", "creator": J2, "id": "4915907654321-1500000000", "s_o": J, "subject": "two"},
                                                     [_n("participant", {"jid": J2, "type": "admin"})])])]), ("from",)),
+    # the class docstring's shape: a rate-limit style error answer carrying the optional backoff
+    "ErrorIq-backoff": ("protocol_iq.protocolentities.iq_error.ErrorIqProtocolEntity", "in",
+                        lambda: _n("iq", {"type": "error", "from": J, "id": "id1"}, [_n("error", {"text": "not-acceptable", "code": "406", "backoff": "3600"})]), ()),
     "SubjectGroupsNotification": ("protocol_groups.protocolentities.notification_groups_subject.SubjectGroupsNotificationProtocolEntity", "in",
                                   lambda: _n("notification", {"notify": "WhatsApp", "id": "id1", "t": "1400000000", "participant": J, "from": G, "type": "w:gp2", "offline": "0"},
                                              [_n("subject", {"s_t": "1400000005", "s_o": J2, "subject": "new subj"})]), ()),
